@@ -382,4 +382,6 @@ def run(ctx, progs):
         c17.r2_forwarding_impls(ctx, P, R="C15.R6")
         from . import c12 as _c12
         _c12.r6_prepare_pads_layout(ctx, P, R="C15.R7")
+        from . import stale
+        stale.rule(ctx, P, "C15.R8", ("mut_bump_vec::MutBumpVec<", "mut_bump_vec_rev::MutBumpVecRev<", "mut_bump_string::MutBumpString<"), 8, 10)
     ctx.config = None
